@@ -129,6 +129,50 @@ example :
   · simp only [List.mem_singleton] at hf
     subst hf; rfl
 
+private theorem zipWith_replicate_mul (v : Rat) (xs : List Rat) :
+    List.zipWith (· * ·) (List.replicate xs.length v) xs = xs.map (v * ·) := by
+  induction xs with
+  | nil => rfl
+  | cons x xs ih => simp [List.replicate_succ, ih]
+
+/-- C05.1s  A NUMERICAL factor whose value is a scalar (`x.max()`, `len(x)`, `{7}`) stands for the column
+that holds it in every row, whatever the output type: alone under a scale `q` the term is the one column
+`q * v` in each of the `n` rows, and in an interaction with a numeric column `xs` the column
+`q * (v * x)`, under the same name, for the sparse and for the numpy/pandas pipeline alike
+(`_as_numerical_column` broadcasts before encoding). For all values, scales, names and row counts. -/
+theorem scalar_factor_is_constant_column (a b : String) (v q : Rat) (xs : List Rat) (n : Nat) :
+    densePipeline [⟨q, [.scalar a v n]⟩] = .ok ([a], [List.replicate n (q * v)]) ∧
+    (sparsePipeline n [⟨q, [.scalar a v n]⟩]).map (fun r => (r.1, r.2.toDense)) = .ok ([a], [List.replicate n (q * v)]) ∧
+    densePipeline [⟨q, [.scalar a v xs.length, .num b xs]⟩] = .ok ([joinColon [a, b]], [xs.map (fun x => q * (v * x))]) ∧
+    (sparsePipeline xs.length [⟨q, [.scalar a v xs.length, .num b xs]⟩]).map (fun r => (r.1, r.2.toDense))
+      = .ok ([joinColon [a, b]], [xs.map (fun x => q * (v * x))]) := by
+  have h1 : densePipeline [⟨q, [.scalar a v n]⟩] = .ok ([a], [List.replicate n (q * v)]) := by
+    simp [densePipeline, gMatrix, gColumns, gFastFactors, gSolo, FSrc.encodeD, gReduce, gNames, iproduct, foldE, gStep,
+      gDictSet, denseOps, broadcast, joinColon, Col.smul]
+  have h2 : densePipeline [⟨q, [.scalar a v xs.length, .num b xs]⟩]
+      = .ok ([joinColon [a, b]], [xs.map (fun x => q * (v * x))]) := by
+    simp [densePipeline, gMatrix, gColumns, gFastFactors, gSolo, FSrc.encodeD, gReduce, gNames, iproduct, foldE, gStep,
+      gDictSet, denseOps, broadcast, Col.smul, Col.mul, zipWith_replicate_mul]
+  refine ⟨h1, ?_, h2, ?_⟩
+  · rw [← h1]
+    apply sparse_refines_dense
+    intro t ht f hf
+    simp only [List.mem_singleton] at ht
+    subst ht
+    simp only [List.mem_singleton] at hf
+    subst hf; rfl
+  · rw [← h2]
+    apply sparse_refines_dense
+    intro t ht f hf
+    simp only [List.mem_singleton] at ht
+    subst ht
+    simp only [List.mem_cons, List.not_mem_nil, or_false] at hf
+    rcases hf with rfl | rfl <;> rfl
+
+/-- a scalar times a column with a zero: the sparse output stores only the non-zero products -/
+example : (sparsePipeline 3 [⟨2, [.scalar "x.max()" 5 3, .num "x" [3, 0, 5]]⟩]).map (fun r => (r.1, r.2.indptr, r.2.indices, r.2.data))
+    = .ok (["x.max():x"], [0, 2], [0, 2], [30, 50]) := by decide +kernel
+
 /-! ## 4. the materializer registry and its dispatch -/
 section registry
 open FormulaicVerif.Model.Registry FormulaicVerif.Proofs.C05R
